@@ -57,8 +57,17 @@ theorem classify_template (n : Str) (h : startsWith "templates/".toList n = true
   have h2 : n ≠ "Chart.lock".toList := by intro e; subst e; revert h; decide
   have h3 : n ≠ "values.yaml".toList := by intro e; subst e; revert h; decide
   have h4 : n ≠ "values.schema.json".toList := by intro e; subst e; revert h; decide
+  have h5 : n ≠ "requirements.lock".toList := by intro e; subst e; revert h; decide
   unfold classify
-  rw [if_neg h1, if_neg h2, if_neg h3, if_neg h4, if_pos h]
+  rw [if_neg h1, if_neg h2, if_neg h5, if_neg h3, if_neg h4, if_pos h]
+
+/-- The Helm 2 lock file of an apiVersion v1 chart is parsed as the lock AND stays among the
+chart's files (so that saving the chart writes it back); in a v2 chart it is only parsed. -/
+theorem v1_requirements_lock_kept (a : Acc) (d : Bytes) :
+    (accStep true a ⟨"requirements.lock".toList, d⟩).lock = some d ∧
+    (accStep true a ⟨"requirements.lock".toList, d⟩).files = a.files ++ [⟨"requirements.lock".toList, d⟩] ∧
+    (accStep false a ⟨"requirements.lock".toList, d⟩).files = a.files := by
+  exact ⟨rfl, rfl, rfl⟩
 
 /-! ## 3. The exclusions, each a proved fact about the writer/loader and a finding on the code -/
 
